@@ -21,7 +21,6 @@ import (
 	"github.com/ava-labs/avalanchego/x/merkledb"
 
 	"github.com/ava-labs/hypersdk/auth"
-	"github.com/ava-labs/hypersdk/chain"
 	"github.com/ava-labs/hypersdk/codec"
 	"github.com/ava-labs/hypersdk/crypto/ed25519"
 )
@@ -76,10 +75,6 @@ func dumpDB(db database.Iteratee) (map[string][]byte, error) {
 	return out, it.Error()
 }
 
-type ruleFactory struct{ r chain.Rules }
-
-func (f ruleFactory) GetRules(int64) chain.Rules { return f.r }
-
 // keyedAccount is a pool account with a real ed25519 key (deterministic seed).
 type keyedAccount struct {
 	factory *auth.ED25519Factory
@@ -107,11 +102,4 @@ func externalAddr(i int) codec.Address {
 	a[2] = byte(i)
 	a[codec.AddressLen-1] = byte(0x70 + i)
 	return a
-}
-
-func hexShort(b []byte) string {
-	if len(b) <= 6 {
-		return fmt.Sprintf("%x", b)
-	}
-	return fmt.Sprintf("%x..%x", b[:3], b[len(b)-3:])
 }
